@@ -12,8 +12,9 @@ META = {
         "methods; each shared control operator reaches the same shared helper functions in both validators. Decides "
         "agreement of these tables for all inputs; agreement of verdicts on all (schema, value) pairs is not decided."),
     "assumptions": ["the two validators' data models correspond as: JSON Number<->CBOR Integer/Float, String<->Text, Array, Object<->Map"],
+    "also_decides": "C04.encctl / C04.ctlbytes: the JSON validator's own base64/hex control code agrees with the shared helpers the CBOR validator calls, on every decoder outcome, and receives the controller literal's bytes unchanged; C04.bareword: bareword member keys under every occurrence form",
     "trusted_base": ["syn 2 parser", "lib/absint.py"],
-    "technique": "static analysis: sibling cross-checking of abstractly evaluated tables and dispatch/callee sets",
+    "technique": "static analysis: sibling cross-checking of abstractly evaluated tables, of the two implementations of the text-encoding controls (decoders scripted), and of dispatch/callee sets",
 }
 
 # helper callees that legitimately exist on one side only (reason)
